@@ -200,6 +200,8 @@ def run_shard(shard: Dict[str, Any], run: Any) -> None:
     for plan in _plans(shard["tier"]):
         for case in _cases_of_plan(plan):
             if position % shard["of"] == shard["index"]:
+                if run.out_of_time():       # budget exhausted: the run is reported as truncated
+                    return
                 _check_case(run, case)
             position += 1
 
